@@ -95,7 +95,11 @@ impl Tokens {
                 let e = ParseErrorEnum::InvalidLiteral;
                 return Err(vec![ParseError(e, *meta)]);
             }
-            literal.map_err(|_| parser.errors)
+            match literal {
+                // errors that do not stop the parser (e.g. `0u8..3u16`) are errors nonetheless
+                Ok(literal) if parser.errors.is_empty() => Ok(literal),
+                _ => Err(parser.errors),
+            }
         } else {
             let e = ParseErrorEnum::InvalidLiteral;
             let meta = MetaInfo {
